@@ -692,7 +692,8 @@ class BrownianInterval(brownian_base.BaseBrownian, _Interval):
         if self._cache_size is None:  # cache_size=None corresponds to infinite cache.
             cache_size = 100
         else:
-            cache_size = min(self._cache_size, 100)
+            # (At least one, as cache_size=0 would otherwise ask for bottom pieces of length zero.)
+            cache_size = max(min(self._cache_size, 100), 1)
 
         self._tree_dt = min(self._tree_dt, dt)
         # Rationale: We are prepared to hold `cache_size` many things in memory, so when making steps of size `dt`
@@ -700,16 +701,20 @@ class BrownianInterval(brownian_base.BaseBrownian, _Interval):
         # For safety we then make this a bit smaller by multiplying by 0.8.
         piece_length = self._tree_dt * cache_size * 0.8
 
-        def _set_points(interval):
+        # Depth-first traversal with an explicit stack rather than recursion: the existing tree may be arbitrarily
+        # deep (e.g. a long chain produced by sequential queries), which would overflow the Python stack.
+        stack = [self]
+        while len(stack):
+            interval = stack.pop()
             start = interval._start
             end = interval._end
             if end - start > piece_length:
-                midway = (end + start) / 2
-                interval._loc(start, midway)
-                _set_points(interval._left_child)
-                _set_points(interval._right_child)
-
-        _set_points(self)
+                midway = self._round((end + start) / 2)
+                # Once we hit the resolution of the Brownian motion (`tol`, or floating point) we cannot split further.
+                if start < midway < end:
+                    interval._loc(start, midway)
+                    stack.append(interval._right_child)
+                    stack.append(interval._left_child)
 
     def __repr__(self):
         if self._dt is None:
